@@ -474,6 +474,11 @@ class Unit:
             for c in kids(rec):
                 if c['kind'] == 'FieldDecl':
                     ft = self.canon(parse_type(self._field_type(c, t)), t)
+                    if ft.ref or ft.ptr:
+                        raise ExtractionError('record %s: member %s is a reference or pointer: storage shared between objects '
+                                              'cannot be rendered by value' % (t.key(), c['name']))
+                    if c.get('mutable'):
+                        raise ExtractionError('record %s: member %s is mutable: hidden state cannot be rendered by value' % (t.key(), c['name']))
                     fields.append('%s %s;' % (self.cty(ft), c['name']))
                 if c['kind'] == 'CXXRecordDecl' and c.get('name') == rec.get('name'):
                     continue
@@ -673,6 +678,9 @@ class FnTr:
         root = re.match(r'[A-Za-z_][A-Za-z_0-9]*', lv)
         if root:
             r = root.group(0)
+            if r == 'self' and self.fi.is_method and self.fi.is_const and not self.fi.is_ctor:
+                raise ExtractionError('%s: a const member function writes to its object (mutable member): hidden state '
+                                      'cannot be rendered by value' % self.fi.cname)
             self.writes.add(r)
             for vid, deps in self.alias_deps.items():
                 if r in deps and any(vid in sc for sc in self.live):
